@@ -243,3 +243,27 @@ Proof.
   rewrite after_stable by exact I.
   rewrite (reads_back_all PPdf v Hwf) by exact I. cbn. reflexivity.
 Qed.
+
+(* a reference may carry any generation number; pdfminer keeps the object number *)
+Lemma ref_any_generation fl n g s rest : stable fl s ->
+  run_toks fl s ([TInt n; TInt g; TKw K_R] ++ rest) = run_toks fl (push (VRef n) s) rest.
+Proof.
+  intros Hs. cbn [app]. rewrite (run_scalar fl s (TInt n) (VInt n)) by (auto; reflexivity).
+  rewrite (run_scalar fl _ (TInt g) (VInt g)) by (try apply stable_push; auto; reflexivity).
+  assert (Hstep : tok_step fl (push (VInt g) (push (VInt n) s)) (TKw K_R) = Ok (push (VRef n) s)).
+  { destruct s as [cx ct cs rs]. unfold tok_step.
+    cbn [kw_eqb bytes_eqb K_R Z.eqb andb Pos.eqb].
+    unfold do_keyword. cbn [kw_eqb bytes_eqb K_R K_xref K_startxref K_endobj K_null Z.eqb andb orb Pos.eqb].
+    unfold push. cbn [curstack ctx curtype results].
+    assert (Hlen : (2 <=? length ((cs ++ [VInt n]) ++ [VInt g]))%nat = true).
+    { apply Nat.leb_le. rewrite !app_length. cbn [length]. lia. }
+    assert (Hr : do_R (mkP cx ct ((cs ++ [VInt n]) ++ [VInt g]) rs) = Ok (mkP cx ct (cs ++ [VRef n]) rs)).
+    { unfold do_R, droplast. cbn [curstack ctx curtype results].
+      rewrite !app_length. cbn [length].
+      replace (length cs + 1 + 1 - 2)%nat with (length cs) by lia.
+      rewrite <- app_assoc. rewrite app_nth2 by lia. rewrite Nat.sub_diag. cbn [nth app safe_int].
+      rewrite firstn_app, firstn_all, Nat.sub_diag. cbn [firstn]. rewrite app_nil_r.
+      unfold push. cbn. reflexivity. }
+    destruct fl; rewrite Hlen; exact Hr. }
+  rewrite (run_step _ _ _ _ _ Hstep). rewrite after_stable by (apply stable_push; exact Hs). reflexivity.
+Qed.
